@@ -889,6 +889,14 @@ class Evaluator:
     def element_of(self, a: Val, idx: Rat) -> Val:
         if isinstance(a, Num) and a.length is not None:
             return a.at(idx)
+        if isinstance(a, Term) and a.head == 'zip' and a.args:
+            return Tup([self.element_of(x_, idx) for x_ in a.args])
+        if isinstance(a, Term) and a.head == 'enumerate' and a.args:
+            start = a.kw('start') if a.kw('start') is not None else (a.args[1] if len(a.args) > 1 else Num(C(0)))
+            if isinstance(start, Num) and start.length is None:
+                return Tup([Num(idx + start.r), self.element_of(a.args[0], idx)])
+        if isinstance(a, Term) and a.head in ('lib:builtins.list', 'lib:builtins.tuple') and len(a.args) == 1 and not a.kwargs:
+            return self.element_of(a.args[0], idx)
         if isinstance(a, Tup):
             return Term('item', (a, Num(idx)))
         if isinstance(a, (Term, Gam)) and getattr(a, 'kind', 'unknown') not in ('tuple', 'dict', 'str', 'object'):
